@@ -21,7 +21,8 @@
    versions give the property as asked under a hypothesis that excludes just the defect's signature. *)
 From Coq Require Import List String NArith Bool.
 From FIM Require Import Base.Str Model.Sliver2Kinds Gen.PropMap Model.Sliver2Map Model.Sliver2WF
-  Model.Sliver2Deep Model.Sliver2DeepWF Model.Sliver2Graph Proofs.Sliver2DeepRT Proofs.Sliver2Tables.
+  Model.Sliver2Deep Model.Sliver2DeepWF Model.Sliver2Graph Proofs.Sliver2DeepRT Proofs.Sliver2GraphRT
+  Proofs.Sliver2Tables.
 Import ListNotations.
 
 (* the translator recognised every statement of the conversion functions (fail-closed flag) *)
@@ -161,8 +162,17 @@ Theorem C02_unset_refused : forall k p d g,
 Proof. exact unset_refused. Qed.
 Print Assumptions C02_unset_refused.
 
-(* GRAPH ROUTE (in-memory backend): executable model tied on every run; no unbounded theorem.
-   It loses the sub-interfaces of interfaces: *)
+(* GRAPH ROUTE (model of the in-memory backend).  Slivers without children - node, stand-alone service,
+   interface, link - written into an empty graph and rebuilt: every attribute and the node id come
+   back (flat k id a = T k (Some id) a None None None).  For trees with children the graph route has
+   no unbounded theorem: executable model tied on every run, and: *)
+Theorem C02_graph_flat_roundtrip : forall k id a,
+  kind_eqb k KComponent = false -> attrs_wf k a = true -> is_normal k a = true ->
+  graph_roundtrip (flat k id a) = Ok (flat k id a).
+Proof. exact graph_flat_roundtrip. Qed.
+Print Assumptions C02_graph_flat_roundtrip.
+
+(* it loses the sub-interfaces of interfaces: *)
 Theorem C02_graph_route_drops_subinterfaces_refuted :
   tree_wf w_tree' = true /\ graph_roundtrip w_tree' = Ok (drop_subifs w_tree') /\ drop_subifs w_tree' <> w_tree'.
 Proof. exact graph_route_refuted. Qed.
@@ -174,6 +184,13 @@ Example C02_deep_nonvacuous :
   tree_wf w_tree' = true /\ bind (to_dict w_tree') (from_dict KNode) = Ok (forget_ids w_tree')
   /\ forget_ids w_tree' <> T KNode None [] None None None.
 Proof. exact deep_example. Qed.
+
+Example C02_graph_flat_nonvacuous :
+  attrs_wf KService (aset "gateway" gw_none w_service) = true /\
+  is_normal KService (aset "gateway" gw_none w_service) = true /\
+  graph_roundtrip (flat KService (S"s1") (aset "gateway" gw_none w_service))
+  = Ok (flat KService (S"s1") (aset "gateway" gw_none w_service)).
+Proof. exact graph_flat_example. Qed.
 
 (* real values satisfy the hypotheses of the element theorems *)
 Example C02_element_nonvacuous :
